@@ -344,35 +344,52 @@ def r2(run: Run, src):
         report(rc, fi, what)
         return rc, fi
 
-    run_method('_fill_cell', {'cell': CellR('0')}, 'data[title][row][column] and three bounds tests')
-    run_method('_get_vertical_range', {'first': CellR('0'), 'second': CellR('0')}, 'rows of one column')
-    run_method('_get_horizontal_range', {'first': CellR('0'), 'second': CellR('0')}, 'columns of one row')
-    rc, fi = run_method('_get_matrix', {'first': CellR('0'), 'second': CellR('0')}, 'rows outer, columns inner')
-    # outer loop rows, inner loop columns
-    fors = [n for n in ast.walk(fi.node) if isinstance(n, ast.For)]
-    nest = [(f, [g for g in ast.walk(f) if isinstance(g, ast.For) and g is not f]) for f in fors]
-    outer = [f for f, inner in nest if inner]
-    ok = False
-    if len(outer) == 1:
-        o_it = ast.unparse(outer[0].iter)
-        i_it = ast.unparse(nest[[f for f, _ in nest].index(outer[0])][1][0].iter)
-        ok = '.row' in o_it and '.column' in i_it and '.column' not in o_it and '.row' not in i_it
-    elif not fors:
-        # nested comprehension: [[cell for column in columns] for row in rows] -- the outer list is built by the comprehension
-        # whose element is the inner list
-        comps = [c for c in ast.walk(fi.node) if isinstance(c, ast.ListComp) and isinstance(c.elt, ast.ListComp) and
-                 len(c.generators) == 1 and len(c.elt.generators) == 1]
-        if len(comps) == 1:
-            o_it = ast.unparse(comps[0].generators[0].iter)
-            i_it = ast.unparse(comps[0].elt.generators[0].iter)
+    # which cells an area consists of: decided by evaluation of the reader on a small sheet; the role reading of the individual
+    # methods is the fallback when the abstraction cannot follow them
+    areas_by_eval = True
+    try:
+        sub_a = Run('tmp', run.tier, run.seed, quiet=True)
+        r2_eval_areas(sub_a, src)
+        for o_ in sub_a.obligations:
+            if o_['verdict'] == 'holds':
+                run.ok('C02.R2', o_['construct'], o_['fact'], loc=o_['loc'])
+                checked += 2
+        for f_ in sub_a.findings:
+            run.bad('C02.R2', f_['construct'], f_['sub'], f_['message'], loc=f_['loc'])
+            checked += 2
+    except AnalysisError as e_a:
+        run.note(f'C02.R2 area evaluation skipped: {e_a.reason[:100]}')
+        areas_by_eval = False
+    if not areas_by_eval:
+        run_method('_fill_cell', {'cell': CellR('0')}, 'data[title][row][column] and three bounds tests')
+        run_method('_get_vertical_range', {'first': CellR('0'), 'second': CellR('0')}, 'rows of one column')
+        run_method('_get_horizontal_range', {'first': CellR('0'), 'second': CellR('0')}, 'columns of one row')
+        rc, fi = run_method('_get_matrix', {'first': CellR('0'), 'second': CellR('0')}, 'rows outer, columns inner')
+        # outer loop rows, inner loop columns
+        fors = [n for n in ast.walk(fi.node) if isinstance(n, ast.For)]
+        nest = [(f, [g for g in ast.walk(f) if isinstance(g, ast.For) and g is not f]) for f in fors]
+        outer = [f for f, inner in nest if inner]
+        ok = False
+        if len(outer) == 1:
+            o_it = ast.unparse(outer[0].iter)
+            i_it = ast.unparse(nest[[f for f, _ in nest].index(outer[0])][1][0].iter)
             ok = '.row' in o_it and '.column' in i_it and '.column' not in o_it and '.row' not in i_it
-        else:
-            raise AnalysisError('C02.R2', '_get_matrix: neither nested loops nor a nested comprehension')
-    run.check(ok, 'C02.R2', 'Excel._get_matrix/loop-order', 'column-major',
-              'the rectangular area is not enumerated with rows in the outer loop and columns in the inner loop (row-major order)',
-              fact='rows outer, columns inner', loc=loc_of(fi.module.path, fi.node))
-    run_method('get_matrix', {'first': CellR('0'), 'second': CellR('0')}, 'whole-column branches')
-    run_method('get_range', {'first': CellR('0'), 'second': CellR('0')}, 'straight-line test')
+        elif not fors:
+            # nested comprehension: [[cell for column in columns] for row in rows] -- the outer list is built by the comprehension
+            # whose element is the inner list
+            comps = [c for c in ast.walk(fi.node) if isinstance(c, ast.ListComp) and isinstance(c.elt, ast.ListComp) and
+                     len(c.generators) == 1 and len(c.elt.generators) == 1]
+            if len(comps) == 1:
+                o_it = ast.unparse(comps[0].generators[0].iter)
+                i_it = ast.unparse(comps[0].elt.generators[0].iter)
+                ok = '.row' in o_it and '.column' in i_it and '.column' not in o_it and '.row' not in i_it
+            else:
+                raise AnalysisError('C02.R2', '_get_matrix: neither nested loops nor a nested comprehension')
+        run.check(ok, 'C02.R2', 'Excel._get_matrix/loop-order', 'column-major',
+                  'the rectangular area is not enumerated with rows in the outer loop and columns in the inner loop (row-major order)',
+                  fact='rows outer, columns inner', loc=loc_of(fi.module.path, fi.node))
+        run_method('get_matrix', {'first': CellR('0'), 'second': CellR('0')}, 'whole-column branches')
+        run_method('get_range', {'first': CellR('0'), 'second': CellR('0')}, 'straight-line test')
     run_method('get_similar_second', {'base': CellR('0'), 'first': CellR('0'), 'second': CellR('0')}, 'base + (second - first) per axis')
     run_method('get_cells', {}, 'enumeration of the three data levels')
     if checked < 16:
@@ -470,6 +487,83 @@ def r3(run: Run, src):
                     loc=loc_of(fi.module.path, n))
 
 
+def _area_evaluator(src, data_rows):
+    """an evaluator of the Excel reader class on a small workbook: self._data = data_rows, modelled Cell objects"""
+    from ..finite import Evaluator, AV, const_av
+    ex = src.cls('Excel')
+    members = {n: m.node for n, m in ex.methods.items()}
+    ev = Evaluator(members, max_depth=12)
+    hc = src.func('handle_cell')
+    ev.functions = {st.name: st for st in hc.module.tree.body if isinstance(st, ast.FunctionDef)}
+    for st in ex.module.tree.body:
+        if isinstance(st, ast.FunctionDef):
+            ev.functions.setdefault(st.name, st)
+    fields = cell_field_order(src)
+
+    def lst(x):
+        return AV('list', items=tuple(lst(y) for y in x)) if isinstance(x, list) else const_av(x)
+
+    def make_cell(args, kwargs):
+        vals = dict(zip(fields, args))
+        vals.update(kwargs)
+        at = {'title': vals.get('title', const_av(None)), 'column': vals.get('column', const_av(None)),
+              'row': vals.get('row', const_av(None)), 'value': vals.get('value', const_av(None)), '_handled_identifiers': const_av(False),
+              'uid': const_av('_uid')}
+        cell = ev.new_obj('Cell', at)
+        real = ev.obj_attrs(cell)
+        real['has_handled_identifiers'] = AV('func', val=('native', lambda a, real=real: real['_handled_identifiers']))
+        return cell
+    ev.constructors = {'Cell': make_cell}
+    titles = AV('dict', items=(AV('tuple', items=(const_av('S0'), const_av(0))), AV('tuple', items=(const_av('S1'), const_av(1)))))
+    me = ev.new_obj('Excel', {'_data': lst(data_rows), '_titles': titles})
+    return ev, me, make_cell
+
+
+def r2_eval_areas(run: Run, src):
+    """which cells an area consists of, decided by abstract evaluation (engine F) of the reader on a 3x3 sheet: rows and columns
+    up to and including the second corner, row-major, whole columns over every stored row, straight ranges in order"""
+    from ..finite import const_av, Unknown, AbsRaise
+    ex = src.cls('Excel')
+    data = [[[1, 2, 3], [4, 5, 6], [7, 8, 9]], [[10]]]
+
+    def values(v):
+        if v.kind == 'obj':
+            return None           # filled below
+        return None
+    cases = [('get_matrix', (0, 0, 0), (0, 1, 1), [[1, 2], [4, 5]], 'A1:B2'), ('get_matrix', (0, 1, 0), (0, 2, 2), [[2, 3], [5, 6], [8, 9]], 'B1:C3'),
+             ('get_matrix', (0, 0, 2), (0, 2, 2), [[7, 8, 9]], 'A3:C3'), ('get_matrix', (0, 0, None), (0, 1, None), [[1, 2], [4, 5], [7, 8]], 'A:B'),
+             ('get_matrix', (0, 2, None), (0, 2, None), [[3], [6], [9]], 'C:C'), ('get_matrix', (1, 0, 0), (1, 0, 0), [[10]], 'second sheet A1:A1'),
+             ('get_range', (0, 1, 0), (0, 1, 2), [2, 5, 8], 'B1:B3'), ('get_range', (0, 0, 1), (0, 2, 1), [4, 5, 6], 'A2:C2'),
+             ('get_range', (0, 2, None), (0, 2, None), [3, 6, 9], 'C:C as a range')]
+    for fn_name, a, b, want, what in cases:
+        if fn_name not in ex.methods:
+            raise AnalysisError('C02.R2', f'Excel.{fn_name} not found')
+        ev, me, make_cell = _area_evaluator(src, data)
+        first = make_cell([const_av(x) for x in a], {})
+        second = make_cell([const_av(x) for x in b], {})
+        construct = f'Excel.{fn_name}/{what}'
+        try:
+            res = ev.call_method(fn_name, [first, second], me)
+        except Unknown as u:
+            raise AnalysisError('C02.R2', f'{construct}: the abstraction cannot follow the reader ({u})')
+        except AbsRaise as e:
+            run.bad('C02.R2', construct, f'raises:{e.exc}', f'Excel.{fn_name} raises {e.exc} for {what} on a 3x3 sheet', loc=loc_of(ex.module.path, ex.methods[fn_name].node))
+            continue
+
+        def val(x):
+            if x.kind == 'obj':
+                v_ = ev.obj_attrs(x)['value']
+                return None if v_.kind == 'none' else v_.val
+            if x.items is not None:
+                return [val(y) for y in x.items]
+            return f'<{x.kind}>'
+        got = val(res)
+        run.check(got == want, 'C02.R2', construct, 'area-cells',
+                  f'Excel.{fn_name} for {what} on the sheet [[1,2,3],[4,5,6],[7,8,9]] yields the cells {got}; the area consists of {want} '
+                  f'(rows and columns up to and including the second corner, row-major)', fact=f'-> {got}',
+                  loc=loc_of(ex.module.path, ex.methods[fn_name].node))
+
+
 def r3_eval(run: Run, src):
     """address normalisation decided by abstract evaluation (engine F) of handle_cell on modelled Cell objects: text
     coordinates become 0-based indices, a title is resolved through the title table only (a digit-only title too), an unknown
@@ -535,8 +629,24 @@ def r4_r5(run: Run, src):
     fi = ex.methods.get('get_matrix')
     if fi is None:
         raise AnalysisError('C02.R4', 'Excel.get_matrix not found')
+    # every branch returns rows of cells: decided by evaluation (the get_matrix cases of r2_eval_areas cover the rectangular, the
+    # one-column and the several-column branch); the shape reading below is the fallback
+    shapes_by_eval = True
+    try:
+        sub_s = Run('tmp', run.tier, run.seed, quiet=True)
+        r2_eval_areas(sub_s, src)
+        for o_ in sub_s.obligations:
+            if o_['verdict'] == 'holds' and 'get_matrix' in o_['construct']:
+                run.ok('C02.R4', o_['construct'], o_['fact'], loc=o_['loc'])
+        for f_ in sub_s.findings:
+            if 'get_matrix' in f_['construct']:
+                run.bad('C02.R4', f_['construct'], f_['sub'], f_['message'], loc=f_['loc'])
+    except AnalysisError:
+        shapes_by_eval = False
     rets = sorted([n for n in ast.walk(fi.node) if isinstance(n, ast.Return) and n.value is not None], key=lambda n: n.lineno)
-    if len(rets) < 2:
+    if shapes_by_eval:
+        rets = []
+    elif len(rets) < 2:
         raise AnalysisError('C02.R4', 'get_matrix has fewer than two return branches')
     assigned = {}
     for st in ast.walk(fi.node):
@@ -715,7 +825,7 @@ def run(run: Run):
     from .common import borrow
     from . import c18
     run.rule('C02.R6', 'title list, data and sizes are index-aligned per worksheet (shared with C18.R2)')
-    borrow(run, 'C02.R6', c18.r2, src)
+    borrow(run, 'C02.R6', c18.r2_any, src)
     from . import c03 as _c03x
     from .common import borrow as _bx
     from ..grammar import get_grammar as _ggx
@@ -727,10 +837,10 @@ def run(run: Run):
     _bx(run, 'C02.R9', _c03x.r1, _sx, _ggx(_sx), _gex(_sx), _gcx(_sx))
     _bx(run, 'C02.R9', _c03x.r2, _sx, _gcx(_sx))
     run.floor('C02.R9', 15)
-    run.floor('C02.R6', 5)
+    run.floor('C02.R6', 2)
     run.rule('C02.R7', 'the reader delivers every stored cell at its coordinate (stream not truncated; shared with C18.R1)')
-    borrow(run, 'C02.R7', c18.r1, src)
-    run.floor('C02.R7', 8)
+    borrow(run, 'C02.R7', c18.r1_any, src)
+    run.floor('C02.R7', 5)
     run.rule('C02.R8', 'the tree a cell is translated from is lexed and parsed for that very cell (in_cell = the cell)')
     run.guard('C02.R8', r8_fresh_parse, run, src)
     run.floor('C02.R8', 1)
